@@ -192,10 +192,12 @@ def judge(ctx, w, store, append_order, blocked_while_storage, close_returned_wit
     applied = [norm(a) for a in store.applied]
     ctx.count('operations_checked', len(req))
     # exactly once
+    import collections
+    counts = collections.Counter(repr(a) for a in applied)      # (linear: the backlog runs hold more than a hundred thousand operations)
     for r in req:
-        c = applied.count(r)
+        c = counts.get(repr(r), 0)
         if c != 1:
-            ctx.violation('requested write applied %d times (must be exactly once)' % c, dict(witness, op=r, applied=applied))
+            ctx.violation('requested write applied %d times (must be exactly once)' % c, dict(witness, op=r, applied=applied[:200]))
             return
     if len(applied) != len(req):
         ctx.violation('wrapped storage saw %d applications for %d requests' % (len(applied), len(req)), witness)
@@ -475,10 +477,13 @@ def backlog(ctx, n):
     the storage recovers and the wrapper is closed. Everything requested before close must still be applied exactly once, in order."""
     from playback.tape_cassettes.asynchronous.async_record_only_tape_cassette import AsyncRecordOnlyTapeCassette
     rng = ctx.rng
-    for i in range(n):
+    for i in range(n + 1):
         gate = threading.Event()
         store = make_spy_store(lambda: gate.wait(60))
         w = {'producers': rng.choice([1, 2]), 'recordings': rng.choice([6, 14]), 'writes': rng.choice([100, 250])}
+        if i == n:
+            # one very long stall: more than a hundred thousand operations pending (past 2**16, 10**5 and 2**17) when the storage recovers
+            w = {'producers': 1, 'recordings': 2, 'writes': 70000 if ctx.quick else 550000}
         cas = AsyncRecordOnlyTapeCassette(store, flush_interval=rng.choice([0.001, 0.02]), timeout_on_close=120)
         cas.start()
         recs = {}
